@@ -198,3 +198,17 @@ Theorem C14_sma_update_pow2_binary64 : forall k (sum old x sum' old' x' cnt : Pr
   (Rabs (FR s1 / FR cnt) <= BIG)%R -> (Rabs ((FR s1 / FR cnt) * bpow radix2 k) <= BIG)%R -> zero_or_normal k (FR s1 / FR cnt) ->
   scaled k s1 (sum' - old' + x')%float /\ scaled k (s1 / cnt)%float ((sum' - old' + x') / cnt)%float.
 Proof. exact sma_update_pow2. Qed.
+
+(* ... and for WHOLE STREAMS of SimpleMovingAverage: two instances related by "same cursors, running sum and every slot scaled by 2^k"
+   stay related, and every output of the instance fed 2^k x is 2^k times (as a value: FR o' = FR o * 2^k) the output of the instance fed
+   x, along every stream whose steps succeed and meet the zero-or-normal side conditions (sma_run_ok); from two fresh instances in
+   particular. Non-vacuity: C14_sma_run_ok_example. *)
+From TA Require Import Proofs.Wiring Proofs.FloatScaleSma.
+Theorem C14_sma_stream_pow2_binary64 : forall k xs xs' s s', rel_sma k s s' -> Forall2 (scaled k) xs xs' -> sma_run_ok k s xs ->
+  Forall2 (scaled k) (res_outs (sma_next FOps) s xs) (res_outs (sma_next FOps) s' xs').
+Proof. exact sma_stream_pow2. Qed.
+Theorem C14_sma_pow2_binary64 : forall k p s xs xs', sma_new FOps p = Ok s -> Forall2 (scaled k) xs xs' -> sma_run_ok k s xs ->
+  Forall2 (scaled k) (res_outs (sma_next FOps) s xs) (res_outs (sma_next FOps) s xs').
+Proof. exact sma_pow2_covariant. Qed.
+Example C14_sma_run_ok_example : exists s, sma_new FOps 2 = Ok s /\ sma_run_ok 3 s [1.5%float] /\ scaled 3 1.5%float 12%float.
+Proof. exact sma_run_ok_example. Qed.
